@@ -542,7 +542,8 @@ def _obs_worker(args):
             a, obs, rew, term, trunc, info = stepinfo
             out["steps"] += 1
             out["by_factory"][fac] += 1
-            check_obs(env, obs, bool(term), "step")
+            # the middleware tells the factory done = "no offers left" (not the terminated flag)
+            check_obs(env, obs, len(env.state.possible_transitions) == 0, "step")
 
         # bad actions: wrap the policy so that rejected actions are verified to leave the episode alone
         try:
